@@ -401,8 +401,10 @@ class XPathContext:
         if self.item is not None:
             status = self.axis
             self.axis = 'self'
-            yield self.item
-            self.axis = status
+            try:
+                yield self.item
+            finally:
+                self.axis = status
 
     def iter_attributes(self) -> Iterator[AttributeNode]:
         """Iterator for 'attribute' axis and '@' shortcut."""
@@ -411,17 +413,20 @@ class XPathContext:
         if isinstance(self.item, AttributeNode):
             status = self.axis
             self.axis = 'attribute'
-            yield self.item
-            self.axis = status
+            try:
+                yield self.item
+            finally:
+                self.axis = status
             return
         elif isinstance(self.item, ElementNode):
             status = self.item, self.axis
             self.axis = 'attribute'
 
-            for self.item in self.item.attributes:
-                yield self.item
-
-            self.item, self.axis = status
+            try:
+                for self.item in self.item.attributes:
+                    yield self.item
+            finally:
+                self.item, self.axis = status
 
     def iter_children_or_self(self) -> Iterator[ta.ItemType]:
         """Iterator for 'child' forward axis and '/' step."""
@@ -432,14 +437,15 @@ class XPathContext:
                 _status = self.item, self.axis
                 self.axis = 'child'
 
-                if self.item is self.document and self.root is not self.document:
-                    if self.root is not None:
-                        yield self.root
-                else:
-                    for self.item in self.item:
-                        yield self.item
-
-                self.item, self.axis = _status
+                try:
+                    if self.item is self.document and self.root is not self.document:
+                        if self.root is not None:
+                            yield self.root
+                    else:
+                        for self.item in self.item:
+                            yield self.item
+                finally:
+                    self.item, self.axis = _status
 
     def iter_matching_nodes(self, name: str, default_namespace: Optional[str] = None) \
             -> Iterator[Union[AttributeNode, ElementNode]]:
@@ -455,16 +461,17 @@ class XPathContext:
             _status = self.item, self.axis
             self.axis = 'child'
 
-            if self.item is self.document and isinstance(self.root, ElementNode):
-                if self.root.match_name(name, default_namespace):
-                    yield self.root
-            else:
-                for self.item in self.item:
-                    if self.item.match_name(name, default_namespace):
-                        assert isinstance(self.item, ElementNode)
-                        yield self.item
-
-            self.item, self.axis = _status
+            try:
+                if self.item is self.document and isinstance(self.root, ElementNode):
+                    if self.root.match_name(name, default_namespace):
+                        yield self.root
+                else:
+                    for self.item in self.item:
+                        if self.item.match_name(name, default_namespace):
+                            assert isinstance(self.item, ElementNode)
+                            yield self.item
+            finally:
+                self.item, self.axis = _status
 
     def iter_parent(self) -> Iterator[ta.RootNodeType]:
         """Iterator for 'parent' reverse axis and '..' shortcut."""
@@ -477,9 +484,10 @@ class XPathContext:
                     self.axis = 'parent'
 
                     self.item = self.item.parent
-                    yield self.item
-
-                    self.item, self.axis = status
+                    try:
+                        yield self.item
+                    finally:
+                        self.item, self.axis = status
 
     def iter_siblings(self, axis: str | None = None) -> Iterator[ta.ChildNodeType]:
         """
@@ -495,22 +503,23 @@ class XPathContext:
                     status = self.item, self.axis
                     self.axis = axis or 'following-sibling'
 
-                    if axis == 'preceding-sibling':
-                        for child in item.parent:  # pragma: no cover
-                            if child is item:
-                                break
-                            self.item = child
-                            yield child
-                    else:
-                        follows = False
-                        for child in item.parent:
-                            if follows:
+                    try:
+                        if axis == 'preceding-sibling':
+                            for child in item.parent:  # pragma: no cover
+                                if child is item:
+                                    break
                                 self.item = child
                                 yield child
-                            elif child is item:
-                                follows = True
-
-                    self.item, self.axis = status
+                        else:
+                            follows = False
+                            for child in item.parent:
+                                if follows:
+                                    self.item = child
+                                    yield child
+                                elif child is item:
+                                    follows = True
+                    finally:
+                        self.item, self.axis = status
 
     def iter_descendants(self, axis: Optional[str] = None) -> Iterator[Union[None, XPathNode]]:
         """
@@ -522,15 +531,18 @@ class XPathContext:
             status = self.item, self.axis
             self.axis = axis
 
-            for self.item in self.item.iter_descendants(with_self=axis != 'descendant'):
-                yield self.item
-
-            self.item, self.axis = status
+            try:
+                for self.item in self.item.iter_descendants(with_self=axis != 'descendant'):
+                    yield self.item
+            finally:
+                self.item, self.axis = status
 
         elif axis != 'descendant' and isinstance(self.item, XPathNode):
             self.axis, axis = axis, self.axis
-            yield self.item
-            self.axis = axis
+            try:
+                yield self.item
+            finally:
+                self.axis = axis
 
     def iter_ancestors(self, axis: Optional[str] = None) -> Iterator[XPathNode]:
         """
@@ -554,10 +566,11 @@ class XPathContext:
                         break
                     parent = parent.parent
 
-            for self.item in reversed(ancestors):
-                yield self.item
-
-            self.item, self.axis = status
+            try:
+                for self.item in reversed(ancestors):
+                    yield self.item
+            finally:
+                self.item, self.axis = status
 
     def iter_preceding(self) -> Iterator[Union[DocumentNode, ta.ChildNodeType]]:
         """Iterator for 'preceding' reverse axis."""
@@ -579,13 +592,14 @@ class XPathContext:
                         root = root.parent
                         ancestors.add(root)
 
-                    for self.item in root.iter_descendants():
-                        if self.item is item:
-                            break
-                        if self.item not in ancestors:
-                            yield self.item
-
-                    self.item, self.axis = status
+                    try:
+                        for self.item in root.iter_descendants():
+                            if self.item is item:
+                                break
+                            if self.item not in ancestors:
+                                yield self.item
+                    finally:
+                        self.item, self.axis = status
 
     def iter_followings(self) -> Iterator[ta.ChildNodeType]:
         """Iterator for 'following' forward axis."""
@@ -600,12 +614,13 @@ class XPathContext:
             while isinstance(root.parent, ElementNode) and root is not self.root:
                 root = root.parent
 
-            for item in root.iter_descendants(with_self=False):
-                if position < item.position and item not in descendants:
-                    self.item = item
-                    yield item
-
-            self.item, self.axis = status
+            try:
+                for item in root.iter_descendants(with_self=False):
+                    if position < item.position and item not in descendants:
+                        self.item = item
+                        yield item
+            finally:
+                self.item, self.axis = status
 
 
 class XPathSchemaContext(XPathContext):
